@@ -127,16 +127,16 @@ package analysis
 
 // local a, b = e1, e2: every initialiser is analysed before any of the names is bound.
 //@ func (*Analysis).cgLocalVarDeclStat
-//@   props C07 C05 C06 C11
+//@   props C07 C05 C06 C11 C14
 //@   at call AddLocVar#* before assert[initialisers-analysed-before-any-name-is-bound] hits("cgExp#0") >= len(node.ExpList) || hits("cgExp#0") > len(node.NameList)
 // EVERY initialiser is analysed, also those beyond the number of names (`local a = 1, 2, x` reads x: fix cb0c284)
 //@   at call AddLocVar#* before assert[C07,C20,every-initialiser-is-analysed] hits("cgExp#0") == len(node.ExpList)
 //@   loop range:node.ExpList#0 exits-early-only-if [C07,C20,every-initialiser-is-analysed] false
 //@   at call AddLocVar#0 before assert[name-bound-at-its-own-location-in-the-current-scope] arg0 == scope && streq(arg2, node.NameList[i]) && arg5 == node.VarLocList[i]
-//@   loop range:node.ExpList#0 invariant hits("cgExp#0") == rangeindex + 1 && rangeindex + 1 <= len(node.ExpList)
+//@   loop range:node.ExpList#0 invariant [C07,C05,C06,C11,C14,C20] hits("cgExp#0") == rangeindex + 1 && rangeindex + 1 <= len(node.ExpList)
 // every local the statement declares records the statement's range (IsCorrectPosition keeps it invisible inside it)
-//@   loop range:node.ExpList#1 step [C05,C06,C11,declared-local-records-its-declaring-statement] varInfo.DeclStatLoc == node.Loc
-//@   loop for:i<nNames step [C05,C06,C11,declared-local-records-its-declaring-statement] (hits("AddLocVar#1") > prev(hits("AddLocVar#1")) ==> lastresult("AddLocVar#1").DeclStatLoc == node.Loc)
+//@   loop range:node.ExpList#1 step [C05,C06,C11,C14,declared-local-records-its-declaring-statement] varInfo.DeclStatLoc == node.Loc
+//@   loop for:i<nNames step [C05,C06,C11,C14,declared-local-records-its-declaring-statement] (hits("AddLocVar#1") > prev(hits("AddLocVar#1")) ==> lastresult("AddLocVar#1").DeclStatLoc == node.Loc)
 //@        && (hits("AddLocVar#2") > prev(hits("AddLocVar#2")) ==> lastresult("AddLocVar#2").DeclStatLoc == node.Loc)
 // of the Lua 5.4 attributes only <close> exempts a local from the unused report (<const> does not)
 //@   loop range:node.ExpList#1 step [C07,only-to-be-closed-locals-are-exempt] (varInfo.IsClose ==> node.AttrList[i] == ast.RDKTOCLOSE) && (node.AttrList[i] == ast.RDKTOCLOSE ==> varInfo.IsClose)
